@@ -469,6 +469,7 @@ def run(tier, seed, replay=None):
             bump('step_kind', s[0]); bump('class_kind', str(facts['class_kind'])); bump('impl_outcome', OUT.get(I, str(I)))
             bump('spec_verdict', VERD.get(S, str(S)))
             hist['mismatch_demanded'] += mm
+            hist['steps_on_classes_generic_by_inheritance'] = hist.get('steps_on_classes_generic_by_inheritance', 0) + bool(facts.get('generic_by_inheritance'))
             if s[0] == 'new':
                 for x in s[3]:
                     bump('x_kind', x[0])
